@@ -7,6 +7,7 @@ pub mod plan_flavours;
 pub mod plan_parent;
 pub mod plan_struct;
 pub mod evidence;
+pub mod fuzzing;
 pub mod gen;
 pub mod gen_repeat;
 pub mod items;
